@@ -377,7 +377,7 @@ def failure(T: Trace, case: Dict[str, Any], noframe: bool = False) -> List[Findi
     fkeys = set(failed_run)
     seen_at = None
     for e in T.ev:
-        if e["k"] == "WAITRET" and any(s in fkeys for s in e["observed"]):
+        if e["k"] == "WAITRET" and any(M.site_of_key.get(s, s) in fkeys for s in e.get("failed_seen", [])):
             seen_at = e["seq"]
             break
         if e["k"] == "EXIT" and not e["ok"]:
